@@ -83,6 +83,16 @@ def gen_faults(bound):
                                 yield {'nvars': 2, 'n': 2, 't': 1, 'script': script, 'init': init, 'preexisting': True,
                                        'opts': {'min_iter': 0, 'max_iter': max_iter, 'tol': 0.5, 'failures': 'ignore',
                                                 'errors': errors, 'catch_first_error': cfe}}
+        # pre-existing non-finite values and an offset: the starting state is the one AFTER the offset copy
+        for bad in ('nan', 'inf'):
+            for offset in (1, -1):
+                for where in ('source', 'target'):
+                    for errors in ERRORS:
+                        init = {'A': [1.0, 1.0, 1.0], 'B': [2.0, 2.0, 2.0], 'X': [0.0, 0.0, 0.0]}
+                        init['A'] = [1.0, 1.0, 1.0]
+                        init['A'][1 + offset if where == 'source' else 1] = bad
+                        yield {'nvars': 2, 'n': 3, 't': 1, 'script': {'1:1': [['B', ['move', 0.125]]]}, 'init': init, 'preexisting': True,
+                               'opts': {'min_iter': 0, 'max_iter': 2, 'tol': 0.5, 'failures': 'ignore', 'errors': errors, 'offset': offset}}
         # pre-existing non-finite arriving in a non-check variable (must not matter)
         for errors in ERRORS[:4]:
             yield {'nvars': 2, 'n': 2, 't': 1, 'check': ['A'], 'init': {'A': [1.0, 1.0], 'B': [1.0, 'nan'], 'X': [0.0, 0.0]},
